@@ -492,3 +492,46 @@ Section RowsF.
                         /\ n_time g = timef func [] (ref_calls tids s) mod W64.
   Proof. destruct (graphf_sums func tids s [] Hwf Hnd) as [C T]. exact (conj C T). Qed.
 End RowsF.
+
+(* ---- re-entry: the FUNC line counts the OUTERMOST entries only ---- *)
+Definition outer_entry (func : name) (p : path) : bool :=
+  match rel_path func p with Some [] => true | _ => false end.
+Lemma rel_path_nil_spec : forall func p, rel_path func p = Some [] <-> exists pre, p = pre ++ [func] /\ ~ In func pre.
+Proof.
+  intros func. induction p as [|x p IH]; simpl.
+  - split; [discriminate|]. intros [pre [H _]]. destruct pre; discriminate.
+  - destruct (name_eqb x func) eqn:E.
+    + apply name_eqb_eq in E. subst x. split.
+      * intros H. inversion H; subst. exists []. split; [reflexivity|intros []].
+      * intros [pre [H Hn]]. destruct pre as [|y pre]; [inversion H; reflexivity|].
+        inversion H; subst. exfalso. apply Hn. left. reflexivity.
+    + apply name_eqb_neq in E. rewrite IH. split.
+      * intros [pre [H Hn]]. exists (x :: pre). split; [rewrite H; reflexivity|]. intros [A|A]; [congruence|contradiction].
+      * intros [pre [H Hn]]. destruct pre as [|y pre]; [inversion H; congruence|].
+        inversion H; subst. exists pre. split; [reflexivity|]. intros A. apply Hn. right. exact A.
+Qed.
+Lemma countf_root : forall func l, countf func [] l = N.of_nat (length (filter (outer_entry func) l)).
+Proof.
+  intros func l. induction l as [|p l IH]; [reflexivity|].
+  rewrite countf_cons, IH. simpl filter. unfold outer_entry, opath_eqb.
+  destruct (rel_path func p) as [[|y r]|]; simpl; lia.
+Qed.
+(* nr_calls of the FUNC line = number of entries of FUNC made while no FUNC was running in that task *)
+Theorem graphf_root_outermost : forall func tids s, wf_stream s = true -> NoDup tids ->
+  n_calls (graphf_build func tids s) = N.of_nat (length (filter (outer_entry func) (ref_entries [] s))).
+Proof.
+  intros func tids s Hwf ND. destruct (graphf_sums func tids s [] Hwf ND) as [C _].
+  unfold calls_at, stat in C. simpl in C. rewrite C. apply countf_root.
+Qed.
+
+(* f { f { f { g } g } } f : one task, direct recursion three deep, then FUNC again *)
+Example graphf_reentry_example :
+  let s := [(1, Ent [102] 10); (1, Ent [102] 20); (1, Ent [102] 30); (1, Ent [103] 40); (1, Ext [103] 50);
+            (1, Ext [102] 60); (1, Ent [103] 70); (1, Ext [103] 80); (1, Ext [102] 90); (1, Ext [102] 100);
+            (1, Ent [102] 110); (1, Ext [102] 125)] in
+  wf_stream s = true
+  /\ length (filter (outer_entry [102]) (ref_entries [] s)) = 2%nat
+  /\ graphf_rows (graphf_build [102] [1] s)
+     = Some [(0, [102], 2, Some (0, 105, 0)); (1, [102], 1, Some (0, 70, 0)); (2, [102], 1, Some (0, 30, 0));
+             (3, [103], 1, Some (0, 10, 0)); (2, [103], 1, Some (0, 10, 0))].
+Proof. vm_compute. repeat split; reflexivity. Qed.
